@@ -47,6 +47,9 @@ class PythonMonitor:
         exporter, instance = args[0], args[1]
         alias = fl.settings.alias
         kind = type(instance).__name__ if not isinstance(instance, (fl.Term, fl.Norm, fl.Defuzzifier, fl.Activation)) else next(b.__name__ for b in (fl.Term, fl.Norm, fl.Defuzzifier, fl.Activation) if isinstance(instance, b))
+        if not isinstance(instance, (fl.Engine, fl.Variable, fl.Term, fl.RuleBlock, fl.Rule, fl.Norm, fl.Activation, fl.Defuzzifier, fl.Hedge)):
+            ctx.hit("out_of_domain:not an engine or a component")
+            return
         case = {"alias": alias, "encapsulated": exporter.encapsulated, "formatted": exporter.formatted, "kind": kind, "code": str(result)[:3000] if result else None}
         ctx.evaluated()
         self.last = None
@@ -227,3 +230,10 @@ def same_outputs(ctx, fl, rnd, spec, engine, back):
             if not W.same(a, b):
                 ctx.violation("the reconstructed engine computes different outputs", {"repr": repr(engine)[:2500], "rows": block, "variable": ov.name}, a, b)
                 return
+
+
+def passive(ctx, fl, probe):
+    """attach this property's always-on monitor to a foreign workload (the repository's test-suite, see vf/pytest_plugin.py)"""
+    mon = PythonMonitor(ctx, fl)
+    mon.install(probe)
+    return None
